@@ -74,3 +74,12 @@ pub fn verif_u64_from_be(b: [u8; 8]) -> (r: u64)
 pub fn verif_u16_to_be(n: u16) -> (r: Vec<u8>)
   ensures r@ == to_be16(n as nat)
 { n.to_be_bytes().to_vec() }
+
+// ---- R12 (tokio::select! desugaring): an arbitrary arm index; a future that never completes; a diverging expression
+#[verifier::external_body]
+pub fn verif_select() -> (r: u8) { unimplemented!() }
+#[verifier::external_body]
+// (Verus quirk: the ensures of an async fn WITHOUT a named return value is not assumed at the await; hence `-> (r: ())`)
+pub async fn verif_pending() -> (r: ()) ensures false { unimplemented!() }
+#[verifier::external_body]
+pub fn verif_never() -> ! requires false { unimplemented!() }
